@@ -23,6 +23,7 @@ type c12Case struct {
 	Origin  string `json:"origin"`  // main | override | included | included-deep | included-projdir | extended
 	WorkDir string `json:"workdir"` // relative to the case root
 	Noise   bool   `json:"noise"`   // add non-path attributes that look like paths
+	XNames  bool   `json:"x_names"` // the service and the resources are named `x-...` (user-chosen names, not extensions)
 }
 
 var c12Attrs = []string{"build.context", "build.additional_contexts", "env_file", "label_file", "volume.bind", "secret.file", "config.file", "develop.watch", "volume.driver_opts.device"}
@@ -63,19 +64,19 @@ func c12Fragment(attr, v string) (map[string]any, map[string]any) {
 	case "volume.bind":
 		return kvm("volumes", []any{kvm("type", "bind", "source", v, "target", "/mnt")}), nil
 	case "secret.file":
-		return nil, kvm("secrets", kvm("sec", kvm("file", v)))
+		return nil, kvm("secrets", kvm(c12n("sec"), kvm("file", v)))
 	case "config.file":
-		return nil, kvm("configs", kvm("cfg", kvm("file", v)))
+		return nil, kvm("configs", kvm(c12n("cfg"), kvm("file", v)))
 	case "develop.watch":
 		return kvm("develop", kvm("watch", []any{kvm("path", v, "action", "rebuild")})), nil
 	case "volume.driver_opts.device":
-		return nil, kvm("volumes", kvm("vol", kvm("driver", "local", "driver_opts", kvm("type", "none", "o", "bind", "device", v))))
+		return nil, kvm("volumes", kvm(c12n("vol"), kvm("driver", "local", "driver_opts", kvm("type", "none", "o", "bind", "device", v))))
 	}
 	panic(attr)
 }
 
 func c12Get(attr string, p *types.Project) (string, bool) {
-	s, ok := p.Services["svc"]
+	s, ok := p.Services[c12n("svc")]
 	switch attr {
 	case "build.context":
 		if ok && s.Build != nil {
@@ -101,17 +102,17 @@ func c12Get(attr string, p *types.Project) (string, bool) {
 			}
 		}
 	case "secret.file":
-		v, ok := p.Secrets["sec"]
+		v, ok := p.Secrets[c12n("sec")]
 		return v.File, ok
 	case "config.file":
-		v, ok := p.Configs["cfg"]
+		v, ok := p.Configs[c12n("cfg")]
 		return v.File, ok
 	case "develop.watch":
 		if ok && s.Develop != nil && len(s.Develop.Watch) == 1 {
 			return s.Develop.Watch[0].Path, true
 		}
 	case "volume.driver_opts.device":
-		v, ok := p.Volumes["vol"]
+		v, ok := p.Volumes[c12n("vol")]
 		return v.DriverOpts["device"], ok
 	}
 	return "", false
@@ -175,7 +176,7 @@ func (cs c12Case) build(root string) c12Built {
 			s[k] = cloneTree(v)
 		}
 		mergeInto(s, cloneTree(svcFrag).(map[string]any))
-		doc := map[string]any{"services": map[string]any{"svc": s}}
+		doc := map[string]any{"services": map[string]any{c12n("svc"): s}}
 		// a named volume next to the path attribute: its source must never be rewritten
 		s["volumes"] = append(anyList(s["volumes"]), kvm("type", "volume", "source", "named", "target", "/named"))
 		doc["volumes"] = kvm("named", nil)
@@ -196,7 +197,7 @@ func (cs c12Case) build(root string) c12Built {
 		b.base = wd
 		over := map[string]any{}
 		if len(svc) > 0 {
-			over["services"] = kvm("svc", svc)
+			over["services"] = kvm(c12n("svc"), svc)
 		}
 		mergeInto(over, top)
 		b.lc = loadCase{Files: []memFile{{Name: filepath.Join(wd, "compose.yaml"), Content: emitYAML(mkdoc(kvm(), kvm(), true), nil)}, {Name: "elsewhere/override.yaml", Content: emitYAML(over, nil)}},
@@ -240,7 +241,22 @@ func anyList(v any) []any {
 	return l
 }
 
+// c12XNames is set for the duration of one case (cases of a process run sequentially)
+var c12XNames bool
+
+func c12n(base string) string {
+	if c12XNames {
+		return "x-" + base
+	}
+	return base
+}
+
 func c12Check(c *Ctx, cs c12Case) *Failure {
+	c12XNames = cs.XNames
+	defer func() { c12XNames = false }()
+	if cs.XNames {
+		c.Label("x-names")
+	}
 	kind := c12Kind[cs.Attr]
 	c.Label("attr:" + cs.Attr)
 	c.Label("origin:" + cs.Origin)
@@ -305,7 +321,7 @@ func c12Check(c *Ctx, cs c12Case) *Failure {
 		return failf("c12:wrong-path:"+cs.Attr+":"+cs.Origin+":"+shapeClass(cs.Shape), "%s: resolved to %q, reference %q (base directory %q, home %q)\n%s", where, got, want, absBase, home, desc())
 	}
 	// named-volume sources and non-path attributes are never rewritten
-	svc := on.Project.Services["svc"]
+	svc := on.Project.Services[c12n("svc")]
 	for _, v := range svc.Volumes {
 		if v.Type == "volume" && v.Source != "named" {
 			return failf("c12:named-volume-rewritten", "%s: named volume source became %q", where, v.Source)
@@ -371,7 +387,7 @@ func shapeClass(s string) string {
 }
 
 func setPathAttr(attr string, p *types.Project, v string) {
-	s := p.Services["svc"]
+	s := p.Services[c12n("svc")]
 	switch attr {
 	case "build.context":
 		if s.Build != nil {
@@ -396,7 +412,7 @@ func setPathAttr(attr string, p *types.Project, v string) {
 	case "volume.driver_opts.device":
 		p.Volumes = nil
 	}
-	p.Services["svc"] = s
+	p.Services[c12n("svc")] = s
 }
 
 func TestC12(t *testing.T) {
@@ -406,7 +422,7 @@ func TestC12(t *testing.T) {
 		for _, shape := range c12Shapes[c12Kind[attr]] {
 			for _, origin := range c12Origins(attr) {
 				for _, wd := range []string{"", "work dir/proj"} {
-					cases = append(cases, c12Case{Attr: attr, Shape: shape, Origin: origin, WorkDir: wd, Noise: len(cases)%2 == 0})
+					cases = append(cases, c12Case{Attr: attr, Shape: shape, Origin: origin, WorkDir: wd, Noise: len(cases)%2 == 0, XNames: len(cases)%3 == 0})
 				}
 			}
 		}
@@ -428,6 +444,6 @@ func TestC12(t *testing.T) {
 				}
 			}
 			wd := strings.Join(rapid.SliceOfN(rapid.SampledFrom([]string{"w", "work dir", "p.q"}), 0, 2).Draw(t, "wd"), "/")
-			return c12Case{Attr: attr, Shape: shape, Origin: rapid.SampledFrom(c12Origins(attr)).Draw(t, "origin"), WorkDir: wd, Noise: rapid.Bool().Draw(t, "noise")}
+			return c12Case{Attr: attr, Shape: shape, Origin: rapid.SampledFrom(c12Origins(attr)).Draw(t, "origin"), WorkDir: wd, Noise: rapid.Bool().Draw(t, "noise"), XNames: rapid.IntRange(0, 2).Draw(t, "xnames") == 0}
 		}, Check: c12Check})
 }
